@@ -32,13 +32,15 @@ echo "apply=$res_apply build=$res_build suite=$res_suite demo_with_change=$res_d
 # run the checks against the change in /repo
 detected=""
 if [ "$res_apply" = ok ] && [ "$res_suite" = pass ] && [ "$res_demo_with" = fail ] && [ "$res_demo_without" = pass ]; then
+  for p in $prop $others; do ./bin/yqv check $p --tier quick 2>&1 | grep "^VIOLATION" | sed 's/ no-failing-input-found//' | sort > /tmp/wt/base_${name}_$p.txt; done
   git -C /repo apply $dst/patch.diff
   for p in $prop $others; do
     out=$(./bin/yqv check $p --tier quick 2>&1)
-    rc=$?
-    echo "$out" | grep -E "^(VIOLATION|C[0-9]+ quick)" | cut -c1-220
-    if [ $rc -eq 1 ]; then detected="$detected $p"; fi
-    echo "$out" | grep "^VIOLATION" | cut -c1-300 > $dst/check_$p.txt
+    echo "$out" | grep "^VIOLATION" | sed 's/ no-failing-input-found//' | sort > /tmp/wt/seeded_${name}_$p.txt
+    new=$(comm -13 /tmp/wt/base_${name}_$p.txt /tmp/wt/seeded_${name}_$p.txt)
+    echo "$out" | grep -E "^C[0-9]+ quick" | cut -c1-220
+    if [ -n "$new" ]; then detected="$detected $p"; echo "$new" | cut -c1-250; fi
+    echo "$new" > $dst/check_$p.txt
   done
   git -C /repo checkout -- .
   # restore evidence written during the seeded run
